@@ -366,6 +366,8 @@ def zoo():
                                               [np.array([1. / 3, 2. / 3]), np.array([2. / 3, 1. / 3])])),
         ('rect-2sp', lambda: crystal.Crystal(np.array([[1., 0.], [0., 1.5]]), [[np.zeros(2)], [np.array([.5, .5])]])),
         ('polar-chain-2D', lambda: crystal.Crystal(np.array([[1., 0.], [0., 3.]]), [[np.zeros(2)], [np.array([.3, .5])]])),
+        ('tetragonal-stack', lambda: crystal.Crystal(np.diag([1., 1., 1.5]), [[np.zeros(3)], [np.array([0., 0., .5])]])),
+        ('rect-stack-2D', lambda: crystal.Crystal(np.diag([1., 1.5]), [[np.zeros(2)], [np.array([0., .5])]])),
         ('tetragonal-2sp', lambda: crystal.Crystal(np.diag([1., 1., 1.5]), [[np.zeros(3)], [np.array([.5, .5, .5]), np.array([0., .5, .25])]])),
     ]
 
@@ -386,6 +388,54 @@ def random_crystal(rng, dim=None, kinds=None, maxchem=2, maxatoms=2, skew=None):
         name += '-skew(noreduce)'
     crys = make_crystal(g, basis, noreduce=skew)
     return name + ' g=%s basis=%s' % (rmat(g), '#'.join(';'.join(rlist(u) for u in a) for a in basis)), crys
+
+
+def skewed_redescription(g, basis, m):
+    """the same crystal described with the lattice vectors a'_j = sum_i m[i][j] a_i (m integer, det +-1):
+    metric m^T g m, positions m^-1 u mod 1 (exact)"""
+    d = len(g)
+    g2 = transform_metric(g, m)
+    minv = fr_inv([[Fr(x) for x in row] for row in m])
+    b2 = [[tuple((sum(minv[i][j] * Fr(u[j]) for j in range(d))) % 1 for i in range(d)) for u in atoms] for atoms in basis]
+    return g2, b2
+
+
+def strong_unimodular(rng, d, maxentry=4):
+    """unimodular integer matrix with entries up to +-maxentry (product of a few column shears), never the identity"""
+    for _ in range(100):
+        m = [[int(i == j) for j in range(d)] for i in range(d)]
+        for _s in range(rng.randint(2, 3)):
+            i, j = rng.sample(range(d), 2)
+            k = rng.choice([-4, -3, -2, 2, 3, 4])
+            for r in range(d): m[r][j] += k * m[r][i]
+        if max(abs(x) for row in m for x in row) <= maxentry and any(m[i][j] for i in range(d) for j in range(d) if i != j):
+            return m
+    return [[1, 3] + [0] * (d - 2)] + [[int(i == j) for j in range(d)] for i in range(1, d)]
+
+
+BASE_CELLS = {   # name -> (metric, basis) of well-known cells, exact
+    'FCC': ([[Fr(1, 2) if i == j else Fr(1, 4) for j in range(3)] for i in range(3)], [[(Fr(0),) * 3]]),
+    'BCC': ([[Fr(3, 4) if i == j else Fr(-1, 4) for j in range(3)] for i in range(3)], [[(Fr(0),) * 3]]),
+    'SC': ([[Fr(int(i == j)) for j in range(3)] for i in range(3)], [[(Fr(0),) * 3]]),
+    'HCP': ([[Fr(1), Fr(-1, 2), Fr(0)], [Fr(-1, 2), Fr(1), Fr(0)], [Fr(0), Fr(0), Fr(8, 3)]],
+            [[(Fr(1, 3), Fr(2, 3), Fr(1, 4)), (Fr(2, 3), Fr(1, 3), Fr(3, 4))]]),
+    'triclinic': ([[Fr(1), Fr(1, 5), Fr(-1, 4)], [Fr(1, 5), Fr(9, 4), Fr(3, 10)], [Fr(-1, 4), Fr(3, 10), Fr(25, 16)]], [[(Fr(0),) * 3]]),
+    'triangular': ([[Fr(1), Fr(-1, 2)], [Fr(-1, 2), Fr(1)]], [[(Fr(0),) * 2]]),
+    'square': ([[Fr(1), Fr(0)], [Fr(0), Fr(1)]], [[(Fr(0),) * 2]]),
+}
+
+
+def skewed_crystal(rng, base=None, m=None, scale=None):
+    """(name, Crystal): a well-known cell re-described with strongly skewed lattice vectors, kept as given (noreduce=True)"""
+    base = base or rng.choice(sorted(BASE_CELLS))
+    g, basis = BASE_CELLS[base]
+    d = len(g)
+    if scale is None: scale = rng.choice([Fr(1), Fr(1), Fr(9), Fr(49, 4)])
+    g = [[x * scale for x in row] for row in g]
+    if m is None: m = strong_unimodular(rng, d)
+    g2, b2 = skewed_redescription(g, basis, m)
+    crys = make_crystal(g2, b2, noreduce=True)
+    return '%s a^2=%s re-described by %s (noreduce)' % (base, rs(scale), m), crys
 
 
 # ---------------------------------------------------------------- compiled Lean drivers
